@@ -11,6 +11,10 @@ use tokio::sync::mpsc::Receiver;
 #[path = "tests/helper_tests.rs"]
 pub mod helper_tests;
 
+#[cfg(all(test, feature = "hotstuff_verif"))]
+#[path = "/verif/replay/consensus_helper.rs"]
+mod verif_replay;
+
 /// A task dedicated to help other authorities by replying to their sync requests.
 pub struct Helper {
     /// The committee information.
